@@ -161,6 +161,9 @@ pub fn check_content(content: &Content, label: &str, rng: &mut Rng, depth: u8, r
     if depth == 0 {
         return;
     }
+    // a formatter call on this thread whose writer failed midway must leave no trace in later texts
+    super::c06::interrupted_write(rng.usize_below(48));
+    report.count("interrupted_writes_before_histories", 1);
     let hs = histories(content, &text, rng, depth >= 2);
     report.count("histories_compared", hs.len() as u64);
     let mut texts: Vec<String> = vec![text.clone()];
